@@ -10,7 +10,8 @@ From Coq Require Import List Arith NArith ZArith Bool Permutation.
 From PV Require Import Base.Bytes Base.Outcome Base.KV Compkey.Model Aol.Model Aol.Spec Aol.StoredSpec Aol.Genesis.
 From PV Require Import Did.Model Did.Props Did.Genesis Chain.Model Chain.Run.
 From PV Require Import Node.Model Node.Proofs Node.Chain Chain.Footprint.
-From PV Require Generated.GenFootprint.
+From PV Require Generated.GenFootprint Generated.GenSchema.
+From PV Require Import Chain.SchemaProps.
 Import ListNotations.
 
 (** (1) whatever CheckTx / simulate / query calls are interleaved anywhere, the committed versions, the protocol phase
@@ -63,3 +64,9 @@ Print Assumptions C09_map_ranges_accounted.
 Theorem C09_footprint_scanned : (100 <=? GenFootprint.scanned_files)%nat = true.
 Proof. exact footprint_scanned. Qed.
 Print Assumptions C09_footprint_scanned.
+
+(** ... and no keeper struct has a field that could carry process-local state from one call (a simulation, a rolled-back
+    transaction, an earlier block before a restart) to the next: every field is a store key, a codec or another keeper *)
+Theorem C09_keepers_hold_no_state : forallb keeper_field_stateless GenSchema.keeper_fields = true.
+Proof. exact keepers_stateless. Qed.
+Print Assumptions C09_keepers_hold_no_state.
